@@ -4,7 +4,7 @@ Monitor: the real Cluster/Session/pools/ResponseFuture run in the deterministic 
 wire-level nodes that stay silent, answer late (after the client timeout), fail, or close the connection.
 For a request timeout T the future must be complete by virtual time t_start + T + eps (eps covers the driver's
 own 3 x 0.01 s re-arm) once all due timers have fired - t_start is the moment execute_async was called, and for
-a later page the moment start_fetching_next_page was called.  Two observation modes: the scenario advances the
+a later page the moment start_fetching_next_page was called (also when the application repeats a page fetch that failed).  Two observation modes: the scenario advances the
 virtual clock to the deadline and looks, or it blocks in future.result() and reads the clock when it returns
 (a world in which result() can never return raises WorldHang: a witness as well).
 """
@@ -172,8 +172,15 @@ def run_history(seed):
         def schedule_next_page(mon):
             """after a successful page: decide when the next page fetch starts (never advance the clock here: other futures have deadlines)"""
             outs = mon.outcomes()
-            if not outs or outs[-1][0] != 'cb' or mon.epoch >= 3:
+            if not outs or mon.epoch >= 4:
                 return False
+            if outs[-1][0] != 'cb':
+                # a LATER page fetch failed (timeout, error, no host): the application may ask for that page again - the paging state of the
+                # previous page is still there.  (A failed first page leaves nothing to resume.)
+                if mon.epoch == 0 or getattr(mon, 'refetches', 0) >= 2 or rng.random() < 0.2:
+                    return False
+                mon.refetches = getattr(mon, 'refetches', 0) + 1
+                mon.refetch_pending = True
             if rng.random() < 0.7:
                 for h in held(('hold', 'late', 'hold-error'), mon.uid):
                     h.release()
@@ -191,6 +198,9 @@ def run_history(seed):
             mon.next_epoch(env.net)
             plan.epoch_of[mon.uid] = mon.epoch
             mon.future.start_fetching_next_page()
+            if getattr(mon, 'refetch_pending', False):
+                mon.refetch_pending = False
+                count('page_fetches_repeated_after_a_failed_fetch')
             mon.deadline = mon.epoch_start[-1] + T + R.EPS
             mon.state = 'running'
             mon.key_time = mon.deadline
@@ -326,4 +336,5 @@ def run(ctx):
             ctx.sample({"info": info, "futures": hist})
     ctx.floor_distinct = 100 if ctx.quick else 1200
     ctx.floor_counters = {"histories": 150, "first_page_deadline_checks": 150, "later_page_deadline_checks": 60, "completed_by_client_timeout": 50,
-                          "deadline_checks_with_unanswered_messages": 80, "blocking_result_calls": 20, "later_page_fetches": 60}
+                          "deadline_checks_with_unanswered_messages": 80, "blocking_result_calls": 20, "later_page_fetches": 60,
+                          "page_fetches_repeated_after_a_failed_fetch": 25}
